@@ -186,7 +186,7 @@ class ScenarioManagerSd(ScenarioManager):
         for name, function in model.functions.items():
             new_function = new_mod.function(name, model.fn[name])
 
-        new_mod.points = model.points
+        new_mod.points = dict(model.points)  # every clone gets its own table of points
 
         return new_mod
 
